@@ -2,7 +2,7 @@
 """Development aid (not a check): for sweep survivors, find out whether the repository's own tests
 notice the edit. Builds the test binary with `go test -c -overlay` (nothing written under the repo)
 and runs a subset of the pinned suite with -failfast.
-usage: testkill.py <sweep.jsonl> <out.jsonl> <run-regex> [id-substring ...]   (env TK_JOBS default 6, TK_TIMEOUT default 300)"""
+usage: testkill.py <sweep.jsonl> <out.jsonl> <skip-regex> [id-substring ...]   (env TK_JOBS default 6, TK_TIMEOUT default 300)"""
 import json, os, subprocess, sys, tempfile, concurrent.futures as cf
 ENV = dict(os.environ, GOFLAGS='-mod=mod', GOPROXY='off'); ENV.pop('GOSUMDB', None); ENV.pop('GOTOOLCHAIN', None)
 REPO = os.environ.get('SWEEP_REPO', '/repo')
@@ -26,7 +26,7 @@ def one(i_r):
         r['tests'] = 'nobuild'; r['tdetail'] = p.stderr[-300:]
     else:
         try:
-            q = subprocess.run([tb, '-test.short', '-test.count=1', '-test.failfast', '-test.run', runre, f'-test.timeout={TO}s'], cwd=REPO, env=ENV, capture_output=True, text=True, timeout=TO + 30)
+            q = subprocess.run([tb, '-test.short', '-test.count=1', '-test.failfast', '-test.skip', runre, f'-test.timeout={TO}s'], cwd=REPO, env=ENV, capture_output=True, text=True, timeout=TO + 30)
             r['tests'] = 'pass' if q.returncode == 0 else 'killed'
             if q.returncode != 0:
                 import re
